@@ -35,7 +35,7 @@ func sendTo(c, ty, n1, n2, tag, pad, mode int64, targets ...int64) hx.T {
 
 // sizes around the thresholds a writer / codec could treat differently: tiny, just below and
 // at 4 KiB (encoded), a few KiB, beyond 64 KiB
-var sizes = []int64{0, 0, 0, 1, 7, 100, 900, 3900, 4020, 4040, 4096, 5000, 6000, 9000, 20000, 66000, 70000}
+var sizes = []int64{-1, -1, 0, 0, 0, 1, 7, 100, 900, 3900, 4020, 4040, 4096, 5000, 6000, 9000, 20000, 66000, 70000}
 
 // a client that does not read while ty's handler first fills the socket buffers (bulk pushes of
 // 3000 B) and then issues a sequence mixing tiny and big messages: the packets of that
@@ -86,6 +86,12 @@ func fixedCases(tier string) [][]hx.T {
 		{hx.C("OConn", 1, 0), hx.C("OConn", 2, 0), sendTo(1, 0, 3, 1, 1, 0, 1, 2), sendTo(1, 2, 3, 1, 2, 0, 2, 2, 2, 9), sendTo(2, 0, 2, 2, 3, 0, 2, 1, 1, 2)},
 		{hx.C("OConn", 1, 0), hx.C("OConn", 2, 0), hx.C("OKey", 1, 1), hx.C("OKey", 2, 2), sendTo(1, 1, 200, 5, 1, 0, 2, 1, 2), sendTo(2, 1, 200, 5, 2, 0, 1, 2, 1),
 			sendTo(1, 0, 200, 5, 3, 0, 2, 1, 2), sendTo(2, 0, 200, 5, 4, 50, 1, 1, 2)},
+		// pushes without content (wire length 0 under the protobuf client serializer) among others,
+		// front-local and forwarded, single- and multi-target, under both serializers
+		{hx.C("OProto"), hx.C("OConn", 1, 0), sendSz(1, 0, 4, 1, 1, []int64{5, -1, 0, -1}, 0, 0), sendSz(1, 2, 4, 1, 2, []int64{-1, 3}, 0, 0)},
+		{hx.C("OConn", 1, 0), sendSz(1, 0, 4, 1, 1, []int64{5, -1, 0, -1}, 0, 0), sendSz(1, 2, 4, 1, 2, []int64{-1, 3}, 0, 0)},
+		{hx.C("OProto"), hx.C("OConn", 1, 0), hx.C("OConn", 2, 0), hx.C("OKey", 1, 2), sendSz(1, 1, 6, 2, 1, []int64{-1, 0, 6000}, 5000, 1, 1, 2),
+			sendSz(2, 0, 5, 0, 2, []int64{-1}, 0, 2, 1, 2), sendSz(2, 2, 3, 3, 3, nil, 70000, 0)},
 		// sizes varying WITHIN one issue sequence (C03-4: a big packet overtaking queued small ones)
 		{hx.C("OConn", 1, 0), sendSz(1, 0, 3, 0, 1, []int64{0, 6000, 0}, 0, 0), sendSz(1, 0, 3, 0, 2, nil, 6000, 0)},
 		{hx.C("OConn", 1, 0), sendSz(1, 2, 3, 0, 1, []int64{0, 6000, 0}, 0, 0), sendSz(1, 2, 3, 0, 2, nil, 6000, 0)},
@@ -115,6 +121,9 @@ func gen(cfg *hx.Config, i int) ([]hx.T, []string) {
 	n := 2 + r.Intn(10)
 	big := i%25 == 24
 	var ops []hx.T
+	if r.Intn(5) < 2 {
+		ops = append(ops, hx.C("OProto"))
+	}
 	conn := map[int64]bool{}
 	tag := int64(1)
 	for len(ops) < n {
@@ -189,7 +198,9 @@ func gen(cfg *hx.Config, i int) ([]hx.T, []string) {
 					pads = append(pads, hx.Pick(r, sizes))
 				}
 				if r.Intn(2) == 0 {
-					rpad = hx.Pick(r, sizes)
+					if rpad = hx.Pick(r, sizes); rpad < 0 {
+						rpad = 0
+					}
 				}
 				if n1 > 60 {
 					n1 = 60
